@@ -45,6 +45,16 @@ def gen_history(rng, n, branches):
             else:
                 idx = [rng.randrange(m) for _ in range(rng.randint(1, 4))]
             ops.append(("mv", o, list(idx))); views.append((o, list(idx)))
+            if o == 0 and rng.random() < 0.6:
+                # the SAME view object read, then one of its nodes written through the owner's handle, then read again
+                v = len(views) - 1
+                cc = rng.choice(["x", "y", "z", "r", "type"])
+                ops.append(("vr", v, cc))
+                ops.append(("nw", 0, rng.choice(idx), cc, rng.randint(-50, 50)))
+                ops.append(rng.choice([("vr", v, cc), ("vn", v, rng.randrange(len(idx)), cc), ("vn", v, -1, cc)]))
+                if rng.random() < 0.4:
+                    ops.append(("dt", v)); objlen[nobj] = len(idx); nobj += 1
+                    ops.append(("r", nobj - 1, cc))
         elif k in ("vr", "vn", "dt", "vs") and views:
             v = rng.randrange(len(views))
             if k == "vr":
@@ -319,6 +329,9 @@ class Collections(Suite):
             segs = Segments(s.detach() for s in t.get_segments())
         members = [[int(v) for v in s.get_ndata("id")] for s in segs]
         res = {"members": members, "n": len(segs)}
+        # node handles navigate the tree they belong to: parent() / children()
+        res["parents"] = [(-1 if t.node(i).parent() is None else int(t.node(i).parent().id)) for i in range(len(t))]
+        res["children"] = [sorted(int(c.id) for c in t.node(i).children()) for i in range(len(t))]
         if len(segs):
             res["id"] = np.asarray(segs.id()).astype(int).tolist()
             res["pid"] = np.asarray(segs.pid()).astype(int).tolist()
@@ -333,10 +346,19 @@ class Collections(Suite):
         t = case["tree"]
         if "exc" in res:
             return [("compartments-raise", f"{case['how']}: {res['exc']}: {res.get('msg')}")]
-        if res.get("skip") or res["n"] == 0:
+        if res.get("skip"):
             return []
         out = []
         pids = t["pids"]
+        if "parents" in res:
+            if res["parents"] != pids:
+                out.append(("node-parent", f"node handles report parents {res['parents']}, the tree's parent column is {pids}"))
+            want = [sorted(j for j in range(t["n"]) if pids[j] == i) for i in range(t["n"])]
+            if res["children"] != want:
+                k = next(i for i in range(t["n"]) if res["children"][i] != want[i])
+                out.append(("node-children", f"node {k}.children() are {res['children'][k]}, the rows whose parent is {k} are {want[k]} (pids={pids})"))
+        if res["n"] == 0:
+            return out
         detached = case["how"] == "detached"
         if detached:
             # a detached copy numbers its two nodes 0, 1 (documented for paths): identify the member by its positions
